@@ -140,9 +140,15 @@ def set_at(o, path, v):
 OTHER_CATEGORY = ["marking-definition", "language-content", "bundle", "relationship", "identity", "ipv4-addr", "extension-definition"]
 
 
-def injections(gen, cid, o):
+def injections(gen, cid, o, full=False):
     """[(site text, custom?, mutated object)] -- one injected copy per site and injection kind."""
     r = gen.rng
+
+    def maybe(p):
+        """probability gate of an injection kind; with full=True (the first, fully populated object of every class)
+        every kind is tried at every site, so that no kind depends on the draw"""
+        x = r.random()
+        return full or x < p
     sites = []
     walk(gen, cid, o, [], sites)
     out = []
@@ -161,13 +167,15 @@ def injections(gen, cid, o):
             name = r.choice(["x_custom_prop", "x_foo", "foo_bar", "zzz"])
             mut(lambda x: at(x, path).__setitem__(name, r.choice(["v", 1, True, ["a"], {"k": 1}])),
                 "custom property %s at %s (%s)" % (name, ps, ex["cid"]), True)
-            if r.random() < 0.3:
+            if maybe(0.3):
                 # given but empty: nothing custom is stored
                 mut(lambda x: at(x, path).__setitem__(name, r.choice([None, []])),
                     "custom property %s given as null / empty list at %s (%s)" % (name, ps, ex["cid"]), False)
-            if r.random() < 0.25:
+            if path or maybe(0.25):
+                # inside a nested dictionary the key reaches the nested constructor as its custom_properties= argument
+                # (the loophole that switches customization on by itself): always tried at nested sites
                 mut(lambda x: at(x, path).__setitem__("custom_properties", {"x_via_loophole": 1}),
-                    "custom_properties key at %s (%s)" % (ps, ex["cid"]), True)
+                    "custom_properties key at %s (%s)" % (ps, ex["cid"]), True, {"always": True} if path else None)
             if not path and "/<" not in ex["cid"]:
                 # a specification-defined property handed over inside the constructor's custom_properties= argument:
                 # it is cleaned and written like any other property -- nothing custom about the object
@@ -189,12 +197,12 @@ def injections(gen, cid, o):
                 pre = {"prebuilt": [{"path": list(path), "cid": ex["cid"]}]}
                 mut(lambda x: at(x, path).__setitem__(name, r.choice(["v", 1, True])),
                     "pre-built instance carrying custom property %s at %s (%s)" % (name, ps, ex["cid"]), True, pre)
-                if r.random() < 0.3:
+                if maybe(0.3):
                     mut(lambda x: None, "pre-built instance without custom content at %s (%s)" % (ps, ex["cid"]), False, pre)
         elif kind == "hashes":
             hn = r.choice(["FOO-HASH", "x_hash", "SHA-999", "CRC32"])
             mut(lambda x: at(x, path).__setitem__(hn, "abcd"), "hash algorithm %s at %s" % (hn, ps), True)
-            if r.random() < 0.3:
+            if maybe(0.3):
                 mut(lambda x: set_at(x, path, {hn: "abcd"}), "only hash algorithm %s at %s" % (hn, ps), True)
             # an algorithm the library recognises (it checks the value) but the slot's specification list does not name
             norm = lambda n: n.replace("-", "").upper()
@@ -213,7 +221,7 @@ def injections(gen, cid, o):
             # custom types REGISTERED in the worker process: still custom when named x-...
             rt = r.choice(["x-registered-object", "x-registered-observable"])
             mut(lambda x: set_at(x, path, rt + "--" + uu), "reference to registered custom type %s at %s" % (rt, ps), True)
-            if r.random() < 0.3:
+            if maybe(0.3):
                 mut(lambda x: set_at(x, path, "registered-plain-object--" + uu),
                     "reference to registered type without x- prefix at %s" % ps, False)
             ot = r.choice(OTHER_CATEGORY)
@@ -227,20 +235,20 @@ def injections(gen, cid, o):
                 holder[key] = val
             en = r.choice(["x-custom-ext", "x-foo-ext", "unregistered-ext"])
             mut(lambda x: add(x, en, {"a": 1, "b": "v"}), "unregistered extension type %s at %s" % (en, ps), True)
-            if ex["ver"] == "2.1" and r.random() < 0.5:
+            if ex["ver"] == "2.1" and maybe(0.5):
                 mut(lambda x: add(x, "extension-definition--" + U1, {"extension_type": "property-extension", "rank": 5}),
                     "unregistered extension-definition property-extension at %s" % ps, False)
-            if ex["ver"] == "2.1" and r.random() < 0.5:
+            if ex["ver"] == "2.1" and maybe(0.5):
                 # a property-extension does not define top-level properties: an unknown one next to it is custom
                 def pe(x):
                     add(x, "extension-definition--" + U1, {"extension_type": "property-extension", "rank": 5})
                     at(x, path)["rank_top"] = 5
                 mut(pe, "unknown top-level property next to an unregistered property-extension at %s" % ps, True)
-            if r.random() < 0.3:
+            if maybe(0.3):
                 mut(lambda x: add(x, "x-registered-ext", {"rank": 1}), "registered custom extension x-registered-ext at %s" % ps, False)
                 mut(lambda x: add(x, "x-registered-ext", {"rank": 1, "x_more": 2}),
                     "custom property inside registered custom extension at %s" % ps, True)
-            if ex["ver"] == "2.1" and r.random() < 0.6:
+            if ex["ver"] == "2.1" and maybe(0.6):
                 # a toplevel-property-extension REGISTERED in the worker: its declared property is ordinary content,
                 # anything beyond it -- or the property without the extension -- is custom
                 def tlreg(x, extra_name=None, with_ext=True):
@@ -289,7 +297,7 @@ def injections(gen, cid, o):
                         True, bef)
                 except (KeyError, IndexError, TypeError):
                     pass
-            if ex["ver"] == "2.1" and r.random() < 0.3 and kind == "extensions-absent":
+            if ex["ver"] == "2.1" and maybe(0.3) and kind == "extensions-absent":
                 def tl(x):
                     add(x, "extension-definition--" + U1, {"extension_type": "toplevel-property-extension"})
                     at(x, path)["rank"] = 5
@@ -440,7 +448,7 @@ def gen_cases(run, per_class):
                 cases.append({"route": "new_version", "cid": cid, "data": {k0: v0 for k0, v0 in o.items() if k0 != "type"},
                               "extra_props": {nm: r.choice(["v", 1, True])}, "custom": True,
                               "site": "custom property %s added by new_version at <top> (%s)" % (nm, cid)})
-            inj = injections(gen, cid, o)
+            inj = injections(gen, cid, o, full=(i == 0))
             # every site once for the first objects of a class, a sample afterwards
             chosen = inj if i < 2 else (r.sample(inj, min(len(inj), 6)) + [t3 for t3 in inj if len(t3) > 3 and t3[3].get("always")])
             for tup in chosen:
